@@ -492,6 +492,27 @@ func C19(p *Prog, r *Run) {
 				}
 			}
 		}
+		// the cached winner is a snapshot: Generations implements sort.Interface and is
+		// re-ordered in place, so a pointer into its backing array changes its referent
+		wg := p.Field(PkgE, "Trial", "WinnerGeneration")
+		nW := 0
+		for _, fn := range p.SrcFuncs() {
+			if fn.Pkg == nil || fn.Pkg.Pkg.Path() != PkgE {
+				continue
+			}
+			for _, st := range FieldStores(fn, wg) {
+				nW++
+				alias := false
+				w := phiWeb(st.Val)
+				for _, f := range append(w.Feeders, st.Val) {
+					if ia, ok := f.(*ssa.IndexAddr); ok && strings.HasSuffix(NewTermer(fn).Of(ia.X).String(), ".Generations") {
+						alias = true
+					}
+				}
+				r.Check(!alias, "WinnerGeneration.snapshot:"+fn.Name(), p.Pos(st.Pos()), "the cached winner is not an element address of the Generations slice", "Trial.WinnerGeneration is set to the address of an element of t.Generations; the list is sorted in place (it implements sort.Interface), after which the cached pointer designates a different generation and the winner statistics no longer equal those recomputed from the records")
+			}
+		}
+		r.Floor("stores to Trial.WinnerGeneration", nW, 1)
 		r.Check(okWS && okSolved, "Trial.WinnerStatistics", p.Pos(ws.Pos()), "(nodes, genes, evaluations, diversity) of the first solved generation", fmt.Sprintf("WinnerStatistics: values are the winner fields in order=%v, taken from the first generation reported solved=%v", okWS, okSolved))
 	})
 
